@@ -29,7 +29,9 @@ var strPool = []string{"x", "y", "v1", "é:+", "(c) 2024", "Apache-2.0", "a b",
 	" ", "\t \n", "X", ""}
 var purlPool = []string{"pkg:npm/a@1", "pkg:npm/b@2", "pkg:deb/debian/c@3", "pkg:/npm/d@4", "pkg:golang/e",
 	// types that are textual prefixes of one another, and a name equal to a type
-	"pkg:go/f@1", "pkg:gem/g", "pkg:gemfury/h", "pkg:generic/npm"}
+	"pkg:go/f@1", "pkg:gem/g", "pkg:gemfury/h", "pkg:generic/npm",
+	// types with characters the purl grammar allows and pattern languages give a meaning to
+	"pkg:c++/boost@1", "pkg:n.m/x", "pkg:cc/y", "pkg:/c++/fmt"}
 var hashVals = []string{"aa", "bb", "cc", "AA", "aB", ""}
 var EdgeTypes = []int{5, 10, 0, 1, 44, 77}
 
